@@ -402,6 +402,8 @@ def cases(tier, seed):
     pool = ["meter", "second", "gram", "kelvin", "newton", "minute", "hour", "watt", "mole", "inch", "percent", "radian", "kilometer", "degree"]
     d = refdefs.default()
     lists = [["meter"], ["second"], ["meter", "second"], ["newton", "meter"], ["gram", "meter", "second"], ["kelvin", "mole", "watt"], ["minute", "hour"], ["inch", "percent", "radian"]]
+    # names and symbols with characters that the LaTeX (and HTML) layouts must escape
+    lists += [["speed_of_light", "percent"], ["meter", "standard_gravity"], ["degree_Celsius", "atomic_unit_of_time"]]
     lists += [rnd.sample(pool, rnd.choice([2, 3])) for _ in range(12 if big else 3)]
     for names in lists:
         names = [d.spellings.get(n, n) for n in names]
